@@ -553,7 +553,7 @@ class Ctx:
         if self._known({vkey, key}, what, case, attributed=att):
             return
         key = vkey
-        if len(self.oracle_fail) < 50:
+        if len(self.oracle_fail) < 50 or (len(self.oracle_fail) < 100 and all(x['key'] != key for x in self.oracle_fail)):   # (a key not seen yet still gets its replay)
             self.oracle_fail.append({'key': key, 'what': what, 'case': tolist(case)})
         self.count('oracle_fail:' + key)
 
@@ -671,13 +671,22 @@ VARIANT_HOW = {
     'strided': 'big = np.full(tuple(2*d for d in A.shape), 9.0); big[::2, ...] = A; big[::2, ...]   (every other element of a larger array)',
     'int64': 'A.astype(np.int64)', 'int32': 'A.astype(np.int32)', 'uint8': 'A.astype(np.uint8)', 'int8': 'A.astype(np.int8)',
     'bool': 'A.astype(bool)',
+    # call-sequence ("decoy") mode: not a storage kind - the SAME float64 values, handed over in a buffer the function has just seen
+    # with other content (see the section `call-sequence mode` below)
+    'after-decoy': 'B = decoy array (node renumbering of A, optionally halved); f(B, ...) [discarded]; B[...] = A; result = f(B, ...); '
+                   'f(B2, ...) on another decoy [discarded]',
 }
 _INT_RANGE = {'int64': (-2.0 ** 53 + 1, 2.0 ** 53 - 1), 'int32': (-2.0 ** 31, 2.0 ** 31 - 1), 'uint8': (0.0, 255.0), 'int8': (-128.0, 127.0),
               'bool': (0.0, 1.0)}
 _VAR = {'ctx': None, 'off': 0, 'real': None, 'proxy': None, 'wrapped': set(), 'retry': [], 'p': 0.25, 'counter': 0, 'pending': {}, 'ncalls': {}, 'skip': set(),
-        'kinds': VARIANT_KINDS, 'salt': 0, 'sigs': {}}
+        'kinds': VARIANT_KINDS, 'salt': 0, 'sigs': {},
+        'decoy': False, 'decoy_p': 0.15, 'decoy_pending': {}, 'decoy_ncalls': {}, 'decoy_bad': set(), 'decoy_stats': {}}
 VARIANTS_DEFAULT = '1'    # the layer is on unless VERIF_VARIANTS=0
 FORCE_WINDOW = 300        # per function: calls during which a not-yet-exercised kind is taken as soon as it applies
+DECOY_DEFAULT = '1'       # the call-sequence mode is on unless VERIF_DECOY=0 (or the layer is off)
+DECOY_STYLES = ('renumbered', 'halved')     # same multiset / total (state keyed by size or totals) ; other values (state keyed by the object)
+DECOY_SEED = 20261002     # what a generator passed as `seed` is replaced by in a decoy call
+DECOY_T = 2.0             # wall-clock limit of one decoy call (load-scaled); a function whose decoy timed out gets no further decoys
 
 
 def apply_variant(kind, A):
@@ -773,18 +782,30 @@ def _var_sig(name, f):
     return s
 
 
+def _var_blocked(name, f, a, k):
+    """copy=False (keyword or positional) and out=: the contract is about the caller's own array - never another buffer"""
+    if 'out' in k or k.get('copy', True) is False:
+        return True
+    names = _var_sig(name, f)
+    return 'copy' in names and names.index('copy') < len(a) and a[names.index('copy')] is False
+
+
+def _scramble(key):
+    z = (key * 0x9E3779B97F4A7C15 + 0xBF58476D1CE4E5B9) & 0xFFFFFFFFFFFFFFFF          # splitmix-style scramble
+    z = ((z ^ (z >> 30)) * 0xBF58476D1CE4E5B9) & 0xFFFFFFFFFFFFFFFF
+    z = ((z ^ (z >> 27)) * 0x94D049BB133111EB) & 0xFFFFFFFFFFFFFFFF
+    return ((z ^ (z >> 31)) >> 11) / float(1 << 53)
+
+
 def _var_plan(name, f, a, k, ctx):
     """-> (kind, [where...]) or None; `where` is a positional index or a keyword name"""
     st = _VAR
     cands = [(i, x) for i, x in enumerate(a) if _var_eligible(x)] + [(n, x) for n, x in k.items() if _var_eligible(x)]
     if not cands:
         return None
-    names = _var_sig(name, f)
-    if 'out' in k or k.get('copy', True) is False:
+    if _var_blocked(name, f, a, k):
         return None
-    if 'copy' in names and names.index('copy') < len(a) and a[names.index('copy')] is False:
-        return None
-    key = ((ctx.seed * 1000003 + int(ctx.pid[1:])) * 1000003 + st['salt']) * 1000003 + st['counter']
+    key =((ctx.seed * 1000003 + int(ctx.pid[1:])) * 1000003 + st['salt']) * 1000003 + st['counter']
     z = (key * 0x9E3779B97F4A7C15 + 0xBF58476D1CE4E5B9) & 0xFFFFFFFFFFFFFFFF          # splitmix-style scramble of (seed, property, call counter)
     z = ((z ^ (z >> 30)) * 0xBF58476D1CE4E5B9) & 0xFFFFFFFFFFFFFFFF
     z = ((z ^ (z >> 27)) * 0x94D049BB133111EB) & 0xFFFFFFFFFFFFFFFF
@@ -835,11 +856,181 @@ class VariantInfo(dict):
 def variant_record(info):
     """what goes into a replay file: function, kind, which arguments, the call as the harness made it, how to convert"""
     a, k = getattr(info, 'call_ref', ((), {}))
+    if info['kind'] == 'after-decoy':
+        return {'function': info['function'], 'kind': 'after-decoy', 'arguments': info['arguments'], 'decoy': info.get('decoy'),
+                'call': info.get('call') or {'args': _var_enc(list(a)), 'kwargs': {str(q): _var_enc(v) for q, v in k.items()}},
+                'how': 'CALL SEQUENCE.  With A = the listed ndarray argument of `call` (float64): (1) B = np.empty_like(A); B[...] = the decoy content '
+                       '(`decoy.before`: A[p][:, p] for the node permutation p, or A.ravel()[q].reshape(A.shape) for the element permutation q, times 0.5 when '
+                       'style is "halved"); (2) %s(B, other arguments) with every generator passed as seed replaced by the integer %d, result discarded, '
+                       'exceptions swallowed; (3) B[...] = A; (4) result = %s(B, other arguments as in `call`) - the call the harness judged; (5) the same '
+                       'function on a second decoy buffer (`decoy.after`), result discarded - `result` must not change.  On a fresh interpreter the single '
+                       'call %s(A, ...) gives the expected result: the function carries state from one call to the next.  tools/variant_repro.py <this file> '
+                       'runs the sequence and the single call.' % (info['function'], DECOY_SEED, info['function'], info['function'])}
     return {'function': info['function'], 'kind': info['kind'], 'arguments': info['arguments'],
             'call': info.get('call') or {'args': _var_enc(list(a)), 'kwargs': {str(q): _var_enc(v) for q, v in k.items()}},
             'how': 'the failing call is %s(*args, **kwargs) of `call` with the listed ndarray argument(s) A (float64, C-ordered in this '
                    'file) replaced by %s - the same values in another representation; on the arrays as written here the failure may '
                    'not show.  tools/variant_repro.py <this file> makes both calls.' % (info['function'], VARIANT_HOW[info['kind']])}
+
+
+# ---- call-sequence ("decoy") mode of the same proxy (design_notes/variants.md, section `Call-sequence mode`)
+# A correct routine is a function of its argument VALUES (and of the seed): its result may depend neither on the calls made
+# before, nor on which buffer holds the values, and a result already returned may not change because the routine is called again.
+# Every harness makes independent calls on fresh arrays, so state carried from call to call (a module-level table per network
+# size that is handed out as the result, a cache keyed by (n, sum(W)), a memo keyed by the identity of the argument object) is
+# invisible to it.  Now and then a wrapped call f(A, ...) therefore becomes
+#     B = decoy(A);  f(B, ...) [discarded];  B[...] = A;  result = f(B, ...);  f(decoy2(A), ...) [discarded];  return result
+# and the harness's own oracle and model judge `result`, which a correct f computes from the values of A alone.
+def decoy_content(A, how):
+    """the content of a decoy buffer for the float64 array A: `how` = {'style', 'node_permutation' | 'element_permutation'}"""
+    if 'node_permutation' in how:
+        p = np.asarray(how['node_permutation'], dtype=int)
+        P = A[p][:, p]
+    else:
+        q = np.asarray(how['element_permutation'], dtype=int)
+        P = np.ascontiguousarray(A).ravel()[q].reshape(A.shape)
+    return P * 0.5 if how['style'] == 'halved' else P
+
+
+def decoy_buffer(A, style, perm_seed):
+    """-> (B, how) or None: a new buffer of the shape / dtype / layout of A whose content differs from A - a simultaneous row and
+    column permutation for square matrices and stacks of them (node renumbering: same size, same multiset of entries, same total,
+    still symmetric / binary / signed / zero-diagonal when A is), an element permutation otherwise; style 'halved' multiplies the
+    content by 0.5 as well (another multiset, same sparsity pattern)"""
+    r = np.random.RandomState(perm_seed % (2 ** 31))          # a generator of its own: the global np.random state is not touched
+    for _ in range(4):
+        if A.ndim >= 2 and A.shape[0] == A.shape[1] and A.shape[0] >= 2:
+            p = r.permutation(A.shape[0])
+            if (p == np.arange(len(p))).all():
+                p = np.roll(p, 1)
+            how = {'style': style, 'node_permutation': p.tolist()}
+        else:
+            q = r.permutation(A.size)
+            how = {'style': style, 'element_permutation': q.tolist()}
+        P = decoy_content(A, how)
+        if not np.array_equal(P, A):
+            B = np.empty_like(A)
+            B[...] = P
+            return B, how
+    return None
+
+
+def _decoy_plan(name, f, a, k, ctx):
+    """-> {'where', 'style', 'perm_seed'} or None.  Decided by a stream of its own (seed, property, call counter); the first
+    eligible calls of every function are taken (one per style)"""
+    st = _VAR
+    if not st['decoy'] or name in st['decoy_bad']:
+        return None
+    where = next((i for i, x in enumerate(a) if _var_eligible(x)), None)
+    if where is None:
+        where = next((q for q, x in k.items() if _var_eligible(x)), None)
+    if where is None or _var_blocked(name, f, a, k):
+        return None
+    key = (((ctx.seed * 1000003 + int(ctx.pid[1:])) * 1000003 + st['salt']) * 1000003 + st['counter']) ^ 0x5DEC0DEC0
+    take = _scramble(key) < st['decoy_p']
+    n = st['decoy_ncalls'][name] = st['decoy_ncalls'].get(name, 0) + 1
+    pend = st['decoy_pending'].setdefault(name, list(DECOY_STYLES))
+    if pend and n <= FORCE_WINDOW:
+        style = pend.pop(0)
+    elif take:
+        style = DECOY_STYLES[0] if _scramble(key + 1) < 0.6 else DECOY_STYLES[1]
+    else:
+        return None
+    return {'where': where, 'style': style, 'perm_seed': int(_scramble(key + 2) * (2 ** 31 - 1))}
+
+
+def _decoy_arg(x):
+    """an argument of a decoy call: generators become a fixed integer seed (the decoy's draws must not touch the harness's recording
+    generator), containers are copied (a decoy that writes into an argument must not reach the harness's objects)"""
+    if isinstance(x, (np.random.RandomState, getattr(np.random, 'Generator', ()))):
+        return DECOY_SEED
+    if isinstance(x, np.ndarray):
+        return x.copy()
+    if isinstance(x, (list, dict, set)):
+        import copy as _copy
+        try:
+            return _copy.deepcopy(x)
+        except Exception:
+            return x
+    return x
+
+
+def _run_decoy(name, f, a, k, where, B, cleanups=True):
+    """f(B, other arguments), result discarded; exceptions and time-outs swallowed; afterwards the global np.random state, the
+    `bct.utils._verif` hook log, the harness's own recordings (variant_retry) and the harness's wall-clock alarm are as before.
+    -> 'returned' | 'raised' | 'timeout'"""
+    st = _VAR
+    a3 = [B if i == where else _decoy_arg(x) for i, x in enumerate(a)]
+    k3 = {q: (B if q == where else _decoy_arg(x)) for q, x in k.items()}
+    rem = signal.getitimer(signal.ITIMER_REAL)[0]          # the alarm of common.call, if the harness set one: paused, not spent
+    glob = np.random.get_state()
+    hooks = getattr(sys.modules.get('bct.utils._verif'), 'LOG', None)
+    nhooks = len(hooks) if isinstance(hooks, list) else None
+    lim = DECOY_T * _load_factor()
+    out = 'returned'
+    try:
+        try:
+            signal.setitimer(signal.ITIMER_REAL, lim)
+            f(*a3, **k3)
+        finally:
+            signal.setitimer(signal.ITIMER_REAL, 0)
+    except Timeout:
+        out = 'timeout'
+        st['decoy_bad'].add(name)
+    except Exception:
+        out = 'raised'
+    np.random.set_state(glob)
+    if nhooks is not None:
+        del hooks[nhooks:]
+    if cleanups:
+        for cleanup in list(st['retry']):
+            cleanup()
+    if rem > 0:
+        signal.setitimer(signal.ITIMER_REAL, rem)
+    st['decoy_stats'][out] = st['decoy_stats'].get(out, 0) + 1
+    return out
+
+
+def _snap_result(x, depth=0):
+    """a private copy of what a call returned (arrays, nested tuples / lists / dicts of them); None for what cannot be compared"""
+    if isinstance(x, np.ndarray):
+        return x.copy() if x.dtype != object else None
+    if isinstance(x, (tuple, list)) and depth < 4:
+        return [_snap_result(y, depth + 1) for y in x]
+    if isinstance(x, dict) and depth < 4:
+        return {q: _snap_result(y, depth + 1) for q, y in x.items()}
+    if isinstance(x, (bool, int, float, complex, str, np.generic)):
+        return x
+    return None
+
+
+def _snap_changed(s, x, path='result'):
+    """-> None, or where the object x differs from the snapshot s taken earlier"""
+    if s is None:
+        return None
+    if isinstance(x, np.ndarray):
+        if not isinstance(s, np.ndarray) or s.shape != x.shape:
+            return path
+        try:
+            return None if np.array_equal(s, x, equal_nan=True) else path
+        except TypeError:
+            return None if np.array_equal(s, x) else path
+    if isinstance(x, (tuple, list)):
+        if not isinstance(s, list) or len(s) != len(x):
+            return path
+        for i, (p, q) in enumerate(zip(s, x)):
+            w = _snap_changed(p, q, '%s[%d]' % (path, i))
+            if w:
+                return w
+        return None
+    if isinstance(x, dict):
+        if not isinstance(s, dict) or set(s) != set(x):
+            return path
+        for q in x:
+            w = _snap_changed(s[q], x[q], '%s[%r]' % (path, q))
+            if w:
+                return w
+    return None
 
 
 def _wrap_variant(name, f):
@@ -854,19 +1045,39 @@ def _wrap_variant(name, f):
             return f(*a, **k)
         st['counter'] += 1
         plan = _var_plan(name, f, a, k, ctx)
-        if plan is None:
-            return f(*a, **k)
-        kind, ws = plan
+        dec = None
         a2, k2 = list(a), dict(k)
-        for w in ws:
+        if plan is None:
+            # call-sequence mode (never together with a storage conversion): decoy call on a private buffer, then the harness's call
+            # on the SAME buffer overwritten in place with the harness's values
+            dec = _decoy_plan(name, f, a, k, ctx)
+            made = dec and decoy_buffer(a[dec['where']] if isinstance(dec['where'], int) else k[dec['where']], dec['style'], dec['perm_seed'])
+            if not made:
+                return f(*a, **k)
+            w = dec['where']
+            A = a[w] if isinstance(w, int) else k[w]
+            B, how = made
+            kind, ws = 'after-decoy', [w]
+            dec['before'] = dict(how, outcome=_run_decoy(name, f, a, k, w, B))
+            B[...] = A                                  # the very buffer the function has just seen, now holding the harness's values
             if isinstance(w, int):
-                a2[w] = apply_variant(kind, a[w])
+                a2[w] = B
             else:
-                k2[w] = apply_variant(kind, k[w])
+                k2[w] = B
+            ctx.count('decoy:' + name)
+        else:
+            kind, ws = plan
+            for w in ws:
+                if isinstance(w, int):
+                    a2[w] = apply_variant(kind, a[w])
+                else:
+                    k2[w] = apply_variant(kind, k[w])
+            ctx.count('variant:' + kind)
+            ctx.count('variant_fn:' + name)
         info = VariantInfo({'function': name, 'kind': kind, 'arguments': [w if isinstance(w, str) else 'positional %d' % w for w in ws]})
         info.call_ref = (a, k)
-        ctx.count('variant:' + kind)
-        ctx.count('variant_fn:' + name)
+        if dec is not None:
+            info['decoy'] = {'seed_in_decoy_calls': DECOY_SEED, 'before': dec['before'], 'after': None}
         # generators passed as seed: remembered so that a call that raises can be repeated on the arguments as given
         rngs = [(x, x.get_state(), {q: (list(v) if isinstance(v, list) else v) for q, v in getattr(x, '__dict__', {}).items()})
                 for x in list(a) + list(k.values()) if isinstance(x, np.random.RandomState)]      # (Rec.log, a scripted stream, ...)
@@ -877,11 +1088,30 @@ def _wrap_variant(name, f):
         ctx._variants_taken = (ctx._variants_taken + [info])[-16:]
         ctx._variants_since_case = (ctx._variants_since_case + [info])[-32:]
         try:
-            return f(*a2, **k2)
+            res = f(*a2, **k2)
         except Timeout:
             raise                      # the one-shot alarm of common.call is spent: no second call; last_variant tags the harness's verdict
         except Exception as e:
             exc = e
+        else:
+            if dec is None:
+                return res
+            # a result that has been returned is a value: another call of the routine (second decoy, on a buffer of its own - `res` may
+            # legitimately share memory with B) must not change it.  The harness judges `res` as it is AFTER that call.
+            if st['retry']:
+                return res             # the harness records while the routine runs: a later call cannot be told from the judged one
+            made = decoy_buffer(A, dec['style'], dec['perm_seed'] + 1)
+            if not made:
+                return res
+            snap = _snap_result(res)
+            B2, how2 = made
+            info['decoy']['after'] = dict(how2, outcome=_run_decoy(name, f, a, k, dec['where'], B2, cleanups=False))
+            changed = _snap_changed(snap, res)
+            if changed:
+                ctx.fail('%s:result-changed-by-later-call' % name, 'the object returned by %s (%s) changed when %s was called again on another array of the '
+                         'same shape: the result of the first call is overwritten by the second' % (name, changed, name),
+                         {'function': name, 'changed': changed, 'returned': tolist(snap), 'after_the_next_call': tolist(_snap_result(res))})
+            return res
         # the converted call raised: is it the representation?  repeat on the arguments exactly as the harness passed them
         ctx.last_variant = None
         ctx._variants_taken = [x for x in ctx._variants_taken if x is not info]
@@ -898,11 +1128,23 @@ def _wrap_variant(name, f):
                     getattr(x, q)[:] = v
                 else:
                     setattr(x, q, v)
-        res = f(*a, **k)               # raises as well -> the harness sees what it would have seen without the layer
+        try:
+            res = f(*a, **k)           # raises as well -> the harness sees what it would have seen without the layer
+        except Exception:
+            if dec is not None:        # (state left by the decoy may be behind this one too: the harness's verdict stays tagged with the sequence)
+                ctx.last_variant = info
+                ctx._variants_taken = (ctx._variants_taken + [info])[-16:]
+                ctx._variants_since_case = (ctx._variants_since_case + [info])[-32:]
+            raise
         ctx.last_variant = info
-        ctx.fail('%s:raises-for-representation' % name, '%s raises %s: %s when the argument(s) %s hold the same values as %s; it returns normally on the float64 arrays' % (
-            name, type(exc).__name__, str(exc)[:200], info['arguments'], kind),
-            {'function': name, 'exception': '%s: %s' % (type(exc).__name__, str(exc)[:300])})
+        if dec is not None:
+            ctx.fail('%s:raises-after-decoy' % name, '%s raises %s: %s when it is handed the harness\'s values in a buffer it has just been called on with other '
+                     'content; the same call on a fresh array returns normally' % (name, type(exc).__name__, str(exc)[:200]),
+                     {'function': name, 'exception': '%s: %s' % (type(exc).__name__, str(exc)[:300])})
+        else:
+            ctx.fail('%s:raises-for-representation' % name, '%s raises %s: %s when the argument(s) %s hold the same values as %s; it returns normally on the float64 arrays' % (
+                name, type(exc).__name__, str(exc)[:200], info['arguments'], kind),
+                {'function': name, 'exception': '%s: %s' % (type(exc).__name__, str(exc)[:300])})
         ctx.last_variant = None
         return res
     variant_call._verif_variant = True
@@ -941,6 +1183,11 @@ def install_variants(ctx):
     p_default = '0.25' if ctx.tier == 'quick' else '0.35'
     st.update(ctx=ctx, off=0, counter=0, pending={}, ncalls={}, skip=set(getattr(mod, 'VARIANT_SKIP', ())), kinds=kinds,
               p=float(os.environ.get('VERIF_VARIANT_P', p_default) or p_default), salt=1 if ctx.escalated else 0)
+    # call-sequence ("decoy") mode: VERIF_DECOY=0 or DECOY_OFF = True in the harness module switch it off (VARIANTS_OFF / VARIANT_SKIP /
+    # no_variants() switch off the whole layer, this mode included)
+    decoy_on = os.environ.get('VERIF_DECOY', DECOY_DEFAULT) != '0' and not getattr(mod, 'DECOY_OFF', False)
+    st.update(decoy=decoy_on, decoy_p=float(os.environ.get('VERIF_DECOY_P', '0.15') or 0.15), decoy_pending={}, decoy_ncalls={},
+              decoy_bad=set(getattr(mod, 'DECOY_SKIP', ())), decoy_stats=st['decoy_stats'] if ctx.escalated else {})
     proxy = _BctProxy('bct', real.__doc__)
     ns = proxy.__dict__
     for key, v in vars(real).items():
@@ -953,7 +1200,12 @@ def install_variants(ctx):
     sys.modules['bct'] = proxy
     ctx.extra['input_variants'] = {'p': st['p'], 'kinds': list(kinds), 'skipped_functions': sorted(st['skip']),
                                    'rule': 'first applicable call of every (function, kind) is taken, then each call with probability p; '
-                                           'decisions from random.Random(seed, property, call counter), never from ctx.rng / ctx.nprng'}
+                                           'decisions from random.Random(seed, property, call counter), never from ctx.rng / ctx.nprng',
+                                   'decoy': ({'p': st['decoy_p'], 'styles': list(DECOY_STYLES), 'skipped_functions': sorted(st['decoy_bad']),
+                                              'rule': 'call-sequence mode: the first eligible calls of every function (one per style), then each call that is not '
+                                                      'converted with probability p: decoy call on a private buffer, the harness\'s values written into the same '
+                                                      'buffer, the judged call on it, a second decoy call on another buffer'} if decoy_on else
+                                             'off (%s)' % ('DECOY_OFF in harness/%s.py: %s' % (ctx.pid.lower(), getattr(mod, 'DECOY_OFF_WHY', '')) if getattr(mod, 'DECOY_OFF', False) else 'VERIF_DECOY=0'))}
     return proxy
 
 
@@ -962,10 +1214,22 @@ def variants_trusted_line(ctx):
     if not isinstance(iv, dict):
         return 'input-representation layer (harness/common.py install_variants): %s for this run' % (iv or 'not installed')
     n = sum(v for k, v in ctx.dist.items() if k.startswith('variant:'))
+    nd = sum(v for k, v in ctx.dist.items() if k.startswith('decoy:'))
+    if isinstance(iv.get('decoy'), dict):
+        iv['decoy'].update(sequences=nd, decoy_call_outcomes=dict(_VAR['decoy_stats']), functions_whose_decoy_timed_out=sorted(_VAR['decoy_bad'] - set(iv['decoy']['skipped_functions'])))
+    dline = ('; call-sequence mode: %d calls were made as decoy call f(B) - B[...] = A - judged call f(B) - decoy call f(B2), on private buffers (B, B2: node '
+             'renumberings of A, some halved), and judged by the same oracle and model: trusted: ndarray.copy / fancy indexing / in-place assignment preserve '
+             'values, a decoy call leaves nothing behind in the harness (global np.random state, _verif hook log and variant_retry recordings are put back, '
+             'generators passed as seed are replaced by the integer %d in decoy calls), and a correct routine is a function of its argument values' % (nd, DECOY_SEED)
+             if isinstance(iv.get('decoy'), dict) else '; call-sequence mode %s' % iv.get('decoy', 'off'))
+    return dline.join(_variants_line(ctx, iv, n))
+
+
+def _variants_line(ctx, iv, n):
     return ('input-representation layer (harness/common.py install_variants, design_notes/variants.md): %d of the harness\'s bct calls were made on another '
             'storage of the SAME values (kinds %s; value-preserving conversions only, decided by a generator of its own) and judged by the same oracle and '
             'model correspondence; trusted: numpy astype / asfortranarray / slicing preserve the values, and the harness\'s verdict does not depend on the '
-            'identity of the array object it passed (harnesses that do depend on it opt out: VARIANTS_OFF / no_variants)' % (n, ', '.join(iv['kinds'])))
+            'identity of the array object it passed (harnesses that do depend on it opt out: VARIANTS_OFF / no_variants)' % (n, ', '.join(iv['kinds'])), '')
 
 
 def uninstall_variants():
@@ -1028,6 +1292,9 @@ def replay_variants(payload, limit=4):
         if f is None:
             print('input representation: %s is not a public bct function of this tree' % r['function']); continue
         a, k = _var_dec(r['call']['args']), {q: _var_dec(v) for q, v in r['call']['kwargs'].items()}
+        if r['kind'] == 'after-decoy':
+            rc |= _replay_decoy(r, a, k, outcome, same)
+            continue
         objs = [x for x in list(a) + list(k.values()) if isinstance(x, str) and ('RandomState' in x or ' at 0x' in x or x.startswith('<'))]
         a2, k2 = list(a), dict(k)
         for w in r['arguments']:
@@ -1048,3 +1315,65 @@ def replay_variants(payload, limit=4):
                            'same outcome for both storages (the clause that failed is wrong for both, or compares with another call: see the case)'))
         rc |= int(differ)
     return rc
+
+
+def _fresh_bct():
+    """a newly imported bct package (state a routine keeps in module globals or default arguments starts empty)"""
+    import importlib
+    for m in [m for m in sys.modules if m == 'bct' or m.startswith('bct.')]:
+        del sys.modules[m]
+    return importlib.import_module('bct')
+
+
+def _replay_decoy(r, a, k, outcome, same):
+    """the recorded call sequence (decoy call on a private buffer B - B[...] = A - the judged call on B - second decoy call) on a newly
+    imported bct, against the single call on the array as written on another newly imported bct.  -> 1 when they differ"""
+    w = r['arguments'][0]
+    w = int(w.split()[1]) if w.startswith('positional ') else w
+    A = a[w] if isinstance(w, int) else k[w]
+    d = r.get('decoy') or {}
+    is_obj = lambda x: isinstance(x, str) and ('RandomState' in x or ' at 0x' in x or x.startswith('<'))
+    nobj = sum(map(is_obj, list(a) + list(k.values())))
+    if nobj:          # the harness's generator is not in the file: the same fresh integer seed in the sequence and in the single call
+        a = [DECOY_SEED + 1 if is_obj(x) else x for x in a]
+        k = {q: (DECOY_SEED + 1 if is_obj(x) else x) for q, x in k.items()}
+    if not isinstance(A, np.ndarray) or not d.get('before'):
+        print('call sequence: the record of %s is incomplete (array not in the file)' % r['function']); return 0
+
+    def args(X, decoy=False):
+        f = (lambda x: _decoy_arg(x)) if decoy else (lambda x: x.copy() if isinstance(x, np.ndarray) else x)
+        return [X if i == w else f(x) for i, x in enumerate(a)], {q: (X if q == w else f(x)) for q, x in k.items()}
+    name = r['function']
+    print('call sequence on one buffer: %s, argument %s  (decoy seed %s%s)' % (name, r['arguments'][0], d.get('seed_in_decoy_calls', DECOY_SEED),
+                                                                           '; generator argument(s) of the recorded call replaced by seed %d in both runs' % (DECOY_SEED + 1) if nobj else ''))
+    f = getattr(_fresh_bct(), name, None)
+    if f is None:
+        print('  %s is not a public bct function of this tree' % name); return 0
+    s0, r0 = outcome(f, *args(A.copy()))
+    print('  single call, fresh interpreter state       : %s(A) %s %s' % (name, s0, str(tolist(r0))[:400]))
+    f = getattr(_fresh_bct(), name)
+    B = np.empty_like(A)
+    B[...] = decoy_content(A, d['before'])
+    how = lambda h: '%s%s' % ('node renumbering p=%s' % h['node_permutation'] if 'node_permutation' in h else 'element permutation q=%s' % str(h['element_permutation'])[:120],
+                              ', times 0.5' if h.get('style') == 'halved' else '')
+    sd, _ = outcome(f, *args(B, decoy=True))
+    print('  1. decoy call  %s(B), B = %s : %s (discarded)' % (name, how(d['before']), sd))
+    B[...] = A
+    print('  2. B[...] = A  (the same buffer now holds the recorded values)')
+    s1, r1 = outcome(f, *args(B))
+    print('  3. judged call %s(B) %s %s' % (name, s1, str(tolist(r1))[:400]))
+    differ = s0 != s1 or (s0 == 'returns' and not same(r0, r1))
+    if d.get('after') and s1 == 'returns':
+        snap = _snap_result(r1)
+        B2 = np.empty_like(A)
+        B2[...] = decoy_content(A, d['after'])
+        sd2, _ = outcome(f, *args(B2, decoy=True))
+        ch = _snap_changed(snap, r1)
+        print('  4. decoy call  %s(B2), B2 = %s : %s (discarded); the object returned in step 3 %s' % (
+            name, how(d['after']), sd2, ('CHANGED (%s): now %s' % (ch, str(tolist(r1))[:400])) if ch else 'is unchanged'))
+        differ = differ or bool(ch) or (s0 == 'returns' and not same(r0, r1))
+    print('  -> %s' % ('the judged call of the sequence DIFFERS from the single call on the same values: state is carried from one call to the next' if differ else
+                       'same outcome for the sequence and the single call (the clause that failed is wrong for both, or compares with another call: see the case)'))
+    for m in [m for m in sys.modules if m == 'bct' or m.startswith('bct.')]:
+        del sys.modules[m]             # (later imports get a clean package)
+    return int(differ)
